@@ -14,8 +14,10 @@ import (
 	proto "github.com/kubewharf/kubebrain-client/api/v2rpc"
 	"go.etcd.io/etcd/api/v3/etcdserverpb"
 	"go.etcd.io/etcd/api/v3/mvccpb"
+	clientv3 "go.etcd.io/etcd/client/v3"
 
 	"github.com/kubewharf/kubebrain/pkg/backend"
+	"github.com/kubewharf/kubebrain/pkg/server/brain"
 	"github.com/kubewharf/kubebrain/pkg/server/etcd"
 
 	"verif/internal/harness"
@@ -29,7 +31,7 @@ func init() {
 	Registry["C16"] = &Prop{
 		Plan: func(tier string) Plan {
 			return Plan{Level: "exploration", NCases: pick(tier, 300, 6000), Batch: 6, CaseTimeout: 120,
-				Rule: "one case = a PRNG sequential history of 40-150 etcd requests sent to the real etcd.RPCServer handlers: the four transaction shapes Kubernetes issues (create-if-absent, guarded update, guarded delete, unguarded delete) with correct / stale / zero expected revisions over existing, missing and deleted keys; Range point reads and range reads with all bounds, limits and old revisions, count-only; one prefix watch with prev_kv; every 6th case instead 4 concurrent etcd clients on one key (memkv/Badger) whose failed compares must never return the compared revision; the sequential cases are interleaved with structurally valid but unsupported transactions (two compares, VALUE/CREATE/VERSION targets, !=,<,> results, two puts, put+delete, nested txn, prev_kv/ignore_* flags, range deletes, compare/put/delete naming different keys, range compares). " +
+				Rule: "one case = a PRNG sequential history of 40-150 etcd requests sent to the real etcd.RPCServer handlers (every 5th sequential case over a real loopback gRPC connection, its watch opened with the real etcd clientv3): the four transaction shapes Kubernetes issues (create-if-absent, guarded update, guarded delete, unguarded delete) with correct / stale / zero expected revisions over existing, missing and deleted keys; Range point reads and range reads with all bounds, limits and old revisions, count-only; one prefix watch with prev_kv; every 6th case instead 4 concurrent etcd clients on one key (memkv/Badger) whose failed compares must never return the compared revision; the sequential cases are interleaved with structurally valid but unsupported transactions (two compares, VALUE/CREATE/VERSION targets, !=,<,> results, two puts, put+delete, nested txn, prev_kv/ignore_* flags, range deletes, compare/put/delete naming different keys, range compares). " +
 					"oracle = etcd-semantics reference (MVCC map; adopts the response revision on success): success flag, failure-branch kv, mod revisions, order, count, more, watch PUT/DELETE with prev_kv; unsupported => error AND unchanged state (full range equal, no event). " +
 					"non-trivial = history with >=1 failed guarded write returning the current kv, >=1 zero-revision guarded request, >=1 limited range cut short and >=3 unsupported shapes; distinct by outcome vector",
 				Assumptions: []string{"EnableEtcdCompatibility is on (count is a stub otherwise)", "only the fields the property names are compared (not the op type of success-branch responses)"},
@@ -43,7 +45,7 @@ func init() {
 type etcdRig struct {
 	c    *harness.Case
 	n    *harness.Node
-	srv  *etcd.RPCServer
+	api  etcdAPI // the real handlers in-process, or the same through a real gRPC connection
 	m    *harness.Model
 	hist []string
 	vec  []byte
@@ -100,7 +102,7 @@ func (e *etcdRig) txn(kind, key string, val []byte, rev int64) bool {
 	}
 	// etcd: a compare on mod revision sees 0 for a key that does not exist
 	compareOK := kind == "udelete" || (kind == "create" && curRev == 0) || (kind != "create" && curRev == rev)
-	resp, err := e.srv.Txn(context.Background(), req)
+	resp, err := e.api.Txn(context.Background(), req)
 	desc := fmt.Sprintf("%s(%q,mod=%d)", kind, key, rev)
 	if err != nil {
 		e.hist = append(e.hist, desc+" -> error "+err.Error())
@@ -220,7 +222,7 @@ func (e *etcdRig) rangeReq(r *rand.Rand) {
 		if len(keys) > 0 && r.Intn(5) > 0 {
 			key = keys[r.Intn(len(keys))]
 		}
-		resp, err := e.srv.Range(context.Background(), &etcdserverpb.RangeRequest{Key: []byte(key), Revision: R})
+		resp, err := e.api.Range(context.Background(), &etcdserverpb.RangeRequest{Key: []byte(key), Revision: R})
 		want := e.m.At(key, eff)
 		e.hist = append(e.hist, fmt.Sprintf("get(%q,rev=%d) -> %v", key, R, kvDesc(resp.GetKvs())))
 		if err != nil {
@@ -243,7 +245,7 @@ func (e *etcdRig) rangeReq(r *rand.Rand) {
 	}
 	want := e.m.Snapshot(a, b, eff)
 	if r.Intn(5) == 0 && R == 0 {
-		resp, err := e.srv.Range(context.Background(), &etcdserverpb.RangeRequest{Key: []byte(a), RangeEnd: []byte(b), CountOnly: true})
+		resp, err := e.api.Range(context.Background(), &etcdserverpb.RangeRequest{Key: []byte(a), RangeEnd: []byte(b), CountOnly: true})
 		e.hist = append(e.hist, fmt.Sprintf("count(%q,%q) -> %d", a, b, resp.GetCount()))
 		if err != nil || resp.Count != int64(len(want)) || len(resp.Kvs) != 0 {
 			c.Violatef("C16 count-only-differs-from-etcd", e.wit(), "count-only Range(%q,%q) = count %d kvs %d (err %v); etcd semantics give %d", a, b, resp.GetCount(), len(resp.GetKvs()), err, len(want))
@@ -254,7 +256,7 @@ func (e *etcdRig) rangeReq(r *rand.Rand) {
 	if r.Intn(2) == 0 {
 		lim = int64(1 + r.Intn(len(want)+2))
 	}
-	resp, err := e.srv.Range(context.Background(), &etcdserverpb.RangeRequest{Key: []byte(a), RangeEnd: []byte(b), Limit: lim, Revision: R})
+	resp, err := e.api.Range(context.Background(), &etcdserverpb.RangeRequest{Key: []byte(a), RangeEnd: []byte(b), Limit: lim, Revision: R})
 	if err != nil {
 		e.hist = append(e.hist, fmt.Sprintf("range(%q,%q,limit=%d,rev=%d) -> error %v", a, b, lim, R, err))
 		c.Violatef("C16 range-read-error", e.wit(), "Range(%q,%q,limit=%d,rev=%d) error %v", a, b, lim, R, err)
@@ -482,7 +484,31 @@ func runC16(c *harness.Case) {
 	}
 	defer eng.Close()
 	defer n.Retire()
-	e := &etcdRig{c: c, n: n, m: harness.NewModel(), srv: etcd.New(n.B, n.Metrics, harness.NewPeers(true))}
+	srvReal := etcd.New(n.B, n.Metrics, harness.NewPeers(true))
+	e := &etcdRig{c: c, n: n, m: harness.NewModel(), api: srvReal}
+	var cli *clientv3.Client
+	if c.Index%5 == 4 {
+		// every 5th sequential case talks to the node over a real loopback gRPC connection; its watch is opened with
+		// the real etcd client (clientv3), the client Kubernetes uses
+		rmG := harness.NewRecMetrics(true)
+		g, gerr := newGRPCNode(srvReal, brain.New(n.B, n.Metrics, harness.NewPeers(true)), rmG)
+		if gerr != nil {
+			c.Inconclusive("grpc: " + gerr.Error())
+			return
+		}
+		defer g.close()
+		e.api = g.etcdGRPC
+		var cerr error
+		cli, cerr = clientv3.New(clientv3.Config{Endpoints: []string{g.addr}, DialTimeout: 5 * time.Second})
+		if cerr != nil {
+			c.Inconclusive("clientv3: " + cerr.Error())
+			return
+		}
+		defer cli.Close()
+		c.AddSet("transports", "grpc+clientv3-watch")
+	} else {
+		c.AddSet("transports", "in-process")
+	}
 	keys := []string{"/a", "/a/b", "/b", "/b/c", "/c", "/d"}
 	for i := range keys {
 		keys[i] = harness.Prefix + keys[i]
@@ -491,17 +517,30 @@ func runC16(c *harness.Case) {
 	ctx, cancel := context.WithCancel(context.Background())
 	defer cancel()
 	e.fw = newFakeWatchServer(ctx)
-	wdone := make(chan error, 1)
-	go func() { wdone <- e.srv.Watch(e.fw) }()
 	full := harness.Prefix + "/"
-	e.fw.in <- &etcdserverpb.WatchRequest{RequestUnion: &etcdserverpb.WatchRequest_CreateRequest{CreateRequest: &etcdserverpb.WatchCreateRequest{
-		Key: []byte(full), RangeEnd: backend.PrefixEnd([]byte(full)), StartRevision: int64(n.Committed() + 1), PrevKv: true}}}
-	// wait for the created message
-	for i := 0; i < 20000; i++ {
-		if len(e.fw.snapshot()) > 0 {
-			break
+	if cli != nil {
+		wch := cli.Watch(ctx, full, clientv3.WithPrefix(), clientv3.WithPrevKV(), clientv3.WithRev(int64(n.Committed()+1)))
+		go func() {
+			for wr := range wch {
+				m := &etcdserverpb.WatchResponse{Canceled: wr.Canceled || wr.Err() != nil}
+				for _, ev := range wr.Events {
+					m.Events = append(m.Events, (*mvccpb.Event)(ev))
+				}
+				e.fw.Send(m)
+			}
+		}()
+	} else {
+		wdone := make(chan error, 1)
+		go func() { wdone <- srvReal.Watch(e.fw) }()
+		e.fw.in <- &etcdserverpb.WatchRequest{RequestUnion: &etcdserverpb.WatchRequest_CreateRequest{CreateRequest: &etcdserverpb.WatchCreateRequest{
+			Key: []byte(full), RangeEnd: backend.PrefixEnd([]byte(full)), StartRevision: int64(n.Committed() + 1), PrevKv: true}}}
+		// wait for the created message
+		for i := 0; i < 20000; i++ {
+			if len(e.fw.snapshot()) > 0 {
+				break
+			}
+			time.Sleep(100 * time.Microsecond)
 		}
-		time.Sleep(100 * time.Microsecond)
 	}
 	// the handler registers with the backend right after sending "created": wait for the subscription (hook counter)
 	for i := 0; i < 50000 && n.PointCount("afterSubscribe") == 0; i++ {
@@ -545,7 +584,7 @@ func runC16(c *harness.Case) {
 			before := e.fullState()
 			evBefore := len(e.fw.snapshot())
 			dealtBefore := n.Dealt()
-			resp, err := e.srv.Txn(context.Background(), req)
+			resp, err := e.api.Txn(context.Background(), req)
 			e.nUnsup++
 			n.WaitCommitted(n.Dealt(), 10*time.Second)
 			after := e.fullState()
